@@ -56,14 +56,18 @@ def run_ops(sess, spec, args, rr, stop_on_exc):
     return outs
 
 
-def one_run(mode, seed, faults):
+def one_run(mode, seed, faults, wcap_seed=None):
     """faults: {call index: kind}.  Returns (trace, total transport calls of the fault-free prefix)."""
     spec = dict(seed=seed, maxdata=4096, rid='random', frag='whole', ops=scenario_ops(seed))
     dev = scen.build_device(spec)
     rr = scen.RunResult()
     args = scen.prepare_ops(spec, dev, None)
     fault = transports.Fault(at=dict(faults))
-    sess = env.Session(mode, dev, fault=fault, tick=0.001, default_transport_timeout_s=None)
+    kw2 = {}
+    if wcap_seed is not None:
+        r_ = random.Random(wcap_seed)
+        kw2['wcap'] = lambda n: r_.randint(1, n)
+    sess = env.Session(mode, dev, fault=fault, tick=0.001, default_transport_timeout_s=None, **kw2)
     sess.core.max_calls = 20000
     tr = []
     kw = dict(read_timeout_s=2.0, transport_timeout_s=1.0)
@@ -79,8 +83,8 @@ def one_run(mode, seed, faults):
     return spec, dev, sess, rr, args, tr, outs, fault, ncalls
 
 
-def fault_trace(mode, seed, faults, baseline):
-    spec, dev, sess, rr, args, tr, outs, fault, ncalls = one_run(mode, seed, faults)
+def fault_trace(mode, seed, faults, baseline, skip_close=False, wcap_seed=None, want_events=False):
+    spec, dev, sess, rr, args, tr, outs, fault, ncalls = one_run(mode, seed, faults, wcap_seed)
     for i, (key, lf, o) in enumerate(outs):
         if o.kind == 'exc':
             oc = 'hang' if o.exc_name in ('Watchdog', 'LockLeak') else 'exc'
@@ -89,12 +93,13 @@ def fault_trace(mode, seed, faults, baseline):
         tr.append(dict(ev='op', api=spec['ops'][i]['api'], outcome=oc, locksFree=lf, faulted=bool(fault.fired)))
     # recovery: close, connect, replay everything (later faults of a pair may strike here)
     nf0 = len(fault.fired)
-    try:
-        o = sess.call('close')
-        ok = o.kind == 'ret' or len(fault.fired) > nf0
-    except transports.Watchdog:
-        ok = False
-    tr.append(dict(ev='close', ok=bool(ok), locksFree=locks_free(sess), avail=bool(sess.device.available)))
+    if not skip_close:
+        try:
+            o = sess.call('close')
+            ok = o.kind == 'ret' or len(fault.fired) > nf0
+        except transports.Watchdog:
+            ok = False
+        tr.append(dict(ev='close', ok=bool(ok), locksFree=locks_free(sess), avail=bool(sess.device.available)))
     nf0 = len(fault.fired)
     o = sess.call('connect', read_timeout_s=2.0, transport_timeout_s=1.0)
     if o.kind == 'exc' and o.exc_name in ('Watchdog', 'LockLeak'):
@@ -109,6 +114,14 @@ def fault_trace(mode, seed, faults, baseline):
             oc = 'same' if key == baseline[i] else ('hang' if o2.exc_name in ('Watchdog', 'LockLeak') else ('exc' if o2.kind == 'exc' else 'wrong'))
             tr.append(dict(ev='op', api=spec['ops'][i]['api'], outcome=oc, locksFree=lf, faulted=len(fault.fired) > nf0))
     sess.close_loop()
+    if want_events:
+        evs = simdev.export(dev.rec.events, keep=('tx', 'tx_garbage', 'rd', 'dv', 'conn'))
+        last = max([i for i, e in enumerate(evs) if e['ev'] == 'conn'] or [0])
+        # only the connection made by the recovery is judged: on the broken one a write that failed in the middle of a packet
+        # is legitimately followed by further packets (e.g. the CLSE of pull's finally)
+        if any(k_ == 'cancel' for k_ in faults.values()):
+            return tr, fault, evs           # a cancellation does not break the connection: everything on the wire is judged
+        return tr, fault, evs[last:]
     return tr, fault
 
 
@@ -137,22 +150,26 @@ def body(ctx):
         if expect is not None and expect not in names:
             raise tlc.TlcError('vacuity: sanity mutation %s/%s does not violate %s' % (nf, nc, expect))
     # 2. fault enumeration
-    traces, meta = [], []
+    traces, meta, env_traces = [], [], []
     for mode in ('sync', 'async'):
         base, ncalls, calls = baseline_for(mode, ctx.seed)
         ctx.extra.setdefault('transport_calls_in_scenario', {})[mode] = ncalls
         ks = list(range(ncalls))
         for k in ks:
-            for kind in ('timeout', 'reset', 'eof'):
-                tr, fault = fault_trace(mode, ctx.seed, {k: kind}, base)
+            for kind in ('timeout', 'reset', 'eof') + (('cancel',) if mode == 'async' else ()):
+                # recovery with and without close(); with and without short writes before the fault
+                variant = (k + len(kind)) % 4
+                tr, fault, evs = fault_trace(mode, ctx.seed, {k: kind}, base, skip_close=bool(variant & 1), wcap_seed=(ctx.seed + k) if variant & 2 else None, want_events=True)
                 traces.append(tr)
-                meta.append(dict(kind='fault', mode=mode, at={str(k): kind}, call=calls[k][0] if k < len(calls) else '?'))
+                env_traces.append(evs)
+                meta.append(dict(kind='fault', mode=mode, at={str(k): kind}, call=calls[k][0] if k < len(calls) else '?', recovery_without_close=bool(variant & 1), short_writes=bool(variant & 2)))
         # a fault exactly at the close() that follows the healthy scenario, and at the connect() after it
-        for extra in (0, 1, 2, 3):
-            for kind in ('timeout', 'reset'):
-                tr, fault = fault_trace(mode, ctx.seed, {ncalls + extra: kind}, base)
-                traces.append(tr)
-                meta.append(dict(kind='fault-in-recovery', mode=mode, at={str(ncalls + extra): kind}))
+        for extra in (0, 1, 2, 3, 4, 5):
+            for kind in ('timeout', 'reset') + (('cancel',) if mode == 'async' else ()):
+                for skip_close in (False, True):
+                    tr, fault = fault_trace(mode, ctx.seed, {ncalls + extra: kind}, base, skip_close=skip_close)
+                    traces.append(tr)
+                    meta.append(dict(kind='fault-in-recovery', mode=mode, at={str(ncalls + extra): kind}, recovery_without_close=skip_close))
         if not ctx.quick:
             for _ in range(600):
                 k1 = rng.randrange(ncalls)
@@ -170,6 +187,14 @@ def body(ctx):
         else:
             ctx.violation(v, dict(meta[i], failing_event=l - 1, events=traces[i][max(0, l - 4):l]))
     ctx.count(traces=okn, evaluations=len(traces), distinct=len(traces))
+    # whatever the host put on the wire during the faulted run and the recovery is also judged by the protocol monitor:
+    # a broken session must not leak half-sent bytes or packets of closed streams into the next connection
+    ver2, r3 = tlc.validate_traces('TraceEnv', env_traces)
+    ctx.add_tlc(r3, 'TraceEnv over the wire traffic of %d faulted runs' % len(env_traces))
+    for (i, l, v) in ver2:
+        if v.startswith('C02.') or v in ('C04.AfterClose', 'C04.DoubleClose'):
+            e_ = env_traces[i][l - 2]
+            ctx.violation('C12.CleanSession(' + v + ')', dict(meta[i], failing_event=l - 1, event={kk: e_.get(kk) for kk in ('ev', 'cmd', 'a0', 'a1', 'reason')}))
     ctx.cov['exhaustive'] = True
     ctx.cov['rule'] = 'one case per (implementation, transport-call index k of the scenario, fault kind) - every k is enumerated; thorough adds random pairs (k1<k2); a case is non-trivial when the fault fired (all are distinct by construction)'
     ctx.sample(dict(meta[10], events=traces[10]))
